@@ -7,13 +7,16 @@ import KojenVerif.Basic.Str
 namespace KojenVerif
 namespace Table
 
-/-- one table line; `none` for the spellings `''`, `None`, `none` -/
+/-- one table line; `none` for the spellings `''`, `None`, `none`.  `noEv`: the event cell is one of these
+    spellings (`ev` keeps the spelling): the row then registers its states, action and guard with the model
+    but belongs to no event - it never fires and no per-event text is generated for it -/
 structure Row where
   src : Str
   ev : Str
   next : Option Str
   action : Option Str
   guard : Option Str
+  noEv : Bool := false
   deriving DecidableEq, Repr
 
 /-- what the controller observes -/
@@ -48,7 +51,7 @@ def tryRows (val : Str → Bool) (fallback : List Cb) (cur : Str) : List Row →
         (res.1, Cb.guard g :: res.2)
 
 /-- the rows of `(state, event)` in table order -/
-def rowsFor (t : List Row) (s e : Str) : List Row := t.filter (fun r => r.src == s && r.ev == e)
+def rowsFor (t : List Row) (s e : Str) : List Row := t.filter (fun r => !r.noEv && r.src == s && r.ev == e)
 
 /-- **Reference semantics** of one event in state `cur` under guard valuation `val`
     (Python flavour: the no-transition hook is called when nothing fires) -/
@@ -80,7 +83,7 @@ def statesStep (acc : List Str) (r : Row) : List Str :=
 
 def states (t : List Row) : List Str := t.foldl statesStep []
 
-def events (t : List Row) : List Str := t.foldl (fun acc r => addUniq acc r.ev) []
+def events (t : List Row) : List Str := (t.filter (fun r => !r.noEv)).foldl (fun acc r => addUniq acc r.ev) []
 def actionsStep (acc : List Str) (r : Row) : List Str :=
   match r.action with | some a => addUniq acc a | none => acc
 def actions (t : List Row) : List Str := t.foldl actionsStep []
@@ -106,7 +109,7 @@ def perStateKeys (t : List Row) : List Str :=
 
 /-- events of a state in first-appearance order -/
 def eventsOf (t : List Row) (s : Str) : List Str :=
-  (t.filter (fun r => r.src == s)).foldl (fun acc r => addUniq acc r.ev) []
+  (t.filter (fun r => !r.noEv && r.src == s)).foldl (fun acc r => addUniq acc r.ev) []
 
 def initial (t : List Row) : Option Str := t.head?.map (·.src)
 
